@@ -114,6 +114,11 @@ pub trait Property {
     fn hang_secs(&self) -> u64 {
         60
     }
+    /// upper bounds on re-executions while shrinking (proptest simplification, structural reduction);
+    /// lower them when one execution is expensive (compiling a generated program)
+    fn shrink_budget(&self) -> (u32, u32) {
+        (4000, 3000)
+    }
     /// Is this (possibly hand-reduced) case inside the domain the property quantifies over?
     /// Used by the structural reducer, which deletes array elements of the case's JSON form.
     fn in_domain(&self, _case: &Self::Case) -> bool {
@@ -175,7 +180,7 @@ pub fn shrink<P: Property>(p: &P, mut tree: Box<dyn ValueTree<Value = P::Case>>,
     if tree.simplify() {
         loop {
             iters += 1;
-            if iters > 4000 {
+            if iters > p.shrink_budget().0 {
                 break;
             }
             let cur = tree.current();
@@ -230,7 +235,7 @@ pub fn reduce_structurally<P: Property>(p: &P, case: P::Case, key: &str, fail: F
     }
     let mut best = case;
     let mut best_f = fail;
-    let mut budget = 3000u32;
+    let mut budget = p.shrink_budget().1;
     'outer: loop {
         let json = serde_json::to_value(&best).unwrap();
         let mut list = Vec::new();
